@@ -61,20 +61,48 @@ Theorem mfl_focus_tracks_item_sort :
 Proof. exact focus_tracks_sort. Qed.
 Print Assumptions mfl_focus_tracks_item_sort.
 
-(* The full clause 3 covers extended-step slices too.  It is stated here and NOT proved: the
-   three theorems above are its [_partial] form (everything except deletion/assignment with
-   |step| >= 2); the remaining case is decided by the correspondence + oracle search only. *)
-Definition fresh_items (o : op) (l : list Z) : Prop :=
-  match o with
-  | SetItem _ x | Insert _ x | Append x => ~ In x l
-  | SetSlice _ _ _ xs | Extend xs | IAdd xs => forall x, In x xs -> ~ In x l
-  | _ => True
-  end.
-Definition mfl_focus_tracks_item_full : Prop :=
-  forall s o v, Valid s -> NoDup (items s) -> NoDup (items (fst (step s o))) -> fresh_items o (items s) ->
-    o_err (snd (step s o)) = None ->
-    nthz (items s) (focus_raw s) = Some v -> In v (items (fst (step s o))) ->
-    nthz (items (fst (step s o))) (focus_raw (fst (step s o))) = Some v.
+(* --- clause 3, slices deleted with any step other than 1 (|step| >= 2 and descending):
+       with (sn,en,tn) the same positions in ascending order, the focus keeps designating its
+       item if that was not removed, else moves to the next kept item, else to the last --- *)
+Theorem mfl_focus_tracks_item_delete_any_step :
+  forall s a b st s0 e0 t0 sn en tn,
+    Valid s -> items s <> [] -> step_is_zero st = false ->
+    slice_indices (zlen (items s)) a b st = (s0, e0, t0) -> t0 <> 1 ->
+    norm_range s0 e0 t0 = (sn, en, tn) ->
+    let l := items s in let f := focus_raw s in
+    let l' := items (fst (step s (DelSlice a b st))) in
+    let f' := focus_raw (fst (step s (DelSlice a b st))) in
+    l' = drop_range 0 sn en tn l /\
+    (l' <> [] ->
+     (in_range f sn en tn = false -> nthz l' f' = nthz l f) /\
+     (in_range f sn en tn = true ->
+        if next_kept f en tn <? zlen l then nthz l' f' = nthz l (next_kept f en tn)
+        else f' = zlen l' - 1)).
+Proof. exact focus_tracks_delete_any_step. Qed.
+Print Assumptions mfl_focus_tracks_item_delete_any_step.
+
+(* --- clause 3, extended-slice assignment (replaces in place): the focus index never moves and
+       still designates its item unless that very item was replaced --- *)
+Theorem mfl_focus_tracks_item_assign_extended :
+  forall s a b st xs s0 e0 t0,
+    Valid s -> items s <> [] -> step_is_zero st = false ->
+    slice_indices (zlen (items s)) a b st = (s0, e0, t0) -> t0 <> 1 ->
+    o_err (snd (step s (SetSlice a b st xs))) = None ->
+    let l := items s in let f := focus_raw s in
+    let l' := items (fst (step s (SetSlice a b st xs))) in
+    let f' := focus_raw (fst (step s (SetSlice a b st xs))) in
+    f' = f /\ (in_range f s0 e0 t0 = false -> nthz l' f' = nthz l f).
+Proof. exact focus_tracks_assign_extended. Qed.
+Print Assumptions mfl_focus_tracks_item_assign_extended.
+
+(* --- the five tracking theorems together cover every successful operation --- *)
+Theorem mfl_tracking_families_exhaustive :
+  forall l o l', list_step l o = Ok l' ->
+    splice_of l o <> None \/ o = Reverse \/ (exists rv, o = Sort rv) \/ (exists i, o = SetFocus i) \/
+    (exists a b st, (o = DelSlice a b st \/ exists xs, o = SetSlice a b st xs) /\
+                    step_is_zero st = false /\ snd (slice_indices (zlen l) a b st) <> 1).
+Proof. exact tracking_families_exhaustive. Qed.
+Print Assumptions mfl_tracking_families_exhaustive.
 
 (* --- clause 4: callbacks --- *)
 Theorem mfl_callbacks :
@@ -101,6 +129,10 @@ Proof. split; [right; cbn; split; reflexivity || discriminate | discriminate]. Q
 Example splice_somewhere :
   splice_of [10; 11; 12; 13] (DelSlice (Some 1) (Some 3) None) = Some (1, 3, []).
 Proof. reflexivity. Qed.
+
+Example extended_somewhere :
+  norm_range 3 (-1) (-2) = (1, 4, 2) /\ in_range 3 1 4 2 = true /\ next_kept 3 4 2 = 4.
+Proof. vm_compute. repeat split. Qed.
 
 Example run_somewhere :
   let '(s, outs) := run (init [10; 11; 12; 13] 1)
